@@ -1,11 +1,11 @@
 SPECIFICATION Spec
 CONSTANTS
-  Starts = {0,1,2,3,4,5,6}
-  Gaps = {1,2,3,4,5,6,7}
-  PMax = 60
-  MaxLen = 60
-  ObsPos = {9,10,12,16,19,20,22,30}
-  ObsCard = {2,3,4}
+  Starts = {0,1,2,3}
+  Gaps = {1,2,3,4,5}
+  PMax = 44
+  MaxLen = 45
+  ObsPos = {9,10,12,16,20,22}
+  ObsCard = {2,3}
   ObsW2 = {7,12}
   Cond = "uniform"
   Export = FALSE
